@@ -219,6 +219,9 @@ def gen_subq_case(rnd):
     elif k < 0.75:
         sub = select([item(col("x"))], table("items"),
                      wh=rnd.choice([TRUE, TRUE, ["cmp", "ne", col("x"), back1], ["cmp", "ge", col("x"), back2]]))
+        if rnd.random() < 0.1:
+            # more than one column on the right of IN: an error, never a guess
+            sub = select([item(col("x")), item(col("y"))], table("items"))
         q = select([item(col("n0")), item(col("s0"))], table("t"),
                    wh=["cmp", "in", col(rnd.choice(["n0", "n1"])), ["subq", sub]])
         tag = "in-subq"
